@@ -10,6 +10,18 @@ use crate::jv;
 
 pub struct Out<'a> {
     pub back: &'a HashMap<String, String>,
+    /// corpus mode: statements keep their `line`, names are canonical strings (`canon_name`)
+    pub corpus: bool,
+}
+
+/// A name as one string, unique per variable: simple `x`, common `c:the x`, proper `p:big bad` (case-folded; `~` for U+00E9).
+pub fn canon_name(n: &VariableName) -> String {
+    let low = |s: &str| jv::abstractise(&s.to_lowercase());
+    match n {
+        VariableName::Simple(s) => low(&s.0),
+        VariableName::Common(c) => format!("c:{} {}", low(&c.0), low(&c.1)),
+        VariableName::Proper(p) => format!("p:{}", p.0.iter().map(|w| low(w)).collect::<Vec<_>>().join(" ")),
+    }
 }
 
 fn opname(o: BinaryOperator) -> &'static str {
@@ -32,6 +44,9 @@ fn opname(o: BinaryOperator) -> &'static str {
 
 impl<'a> Out<'a> {
     pub fn name(&self, n: &VariableName) -> String {
+        if self.corpus {
+            return canon_name(n);
+        }
         let k = name_json(n).to_string();
         self.back.get(&k).cloned().unwrap_or(k)
     }
@@ -93,6 +108,14 @@ impl<'a> Out<'a> {
         }
     }
     pub fn stmt(&self, s: &Statement) -> J {
+        use rrss::frontend::source_range::Line;
+        let mut j = self.stmt0(s);
+        if self.corpus {
+            j["line"] = json!(s.line());
+        }
+        j
+    }
+    fn stmt0(&self, s: &Statement) -> J {
         match s {
             Statement::Assignment(a) => {
                 let AssignmentRHS::ExpressionList(el) = &a.value;
